@@ -496,6 +496,13 @@ def run_property(prop_id, spec, tier, seed=0, only_unit=None, keep=False, verbos
             say('INCONCLUSIVE %d queries (time-out / unknown) — recorded, not counted as discharged' % n_inc)
         if timed_out:
             say('INCONCLUSIVE %d jobs exceeded their wall-clock cap — recorded, not counted as discharged: %s' % (len(timed_out), '; '.join(timed_out[:6])))
+        if missing and tier == 'thorough':
+            # a witness that is missing only because jobs of its unit hit the wall-clock cap is an inconclusive exploration, not a vacuous harness
+            capped_units = set(t.split(' ')[0] for t in timed_out)
+            capped_missing = [m for m in missing if m.split(':')[0] in capped_units]
+            if capped_missing:
+                say('INCONCLUSIVE witnesses not reached because jobs of their unit were capped:', ', '.join(capped_missing))
+                missing = [m for m in missing if m not in capped_missing]
         if missing:
             say('ERROR vacuity witnesses not reached:', ', '.join(missing))
         if val_problems:
